@@ -6,9 +6,11 @@ import conc_corr
 def explore(run, lean):
     conc_corr.explore(run, "C04", 150 if run.tier == "quick" else 3000, escalate=bool(lean.get("broken")))
     conc_corr.explore_live(run, "C04", 30 if run.tier == "quick" else 600)
+    run.fork("timed")
     ao_corr.explore_timed_placement(run, "C04", 30 if run.tier == "quick" else 800)
     # handlers that arm and cancel timed sources while timers fire and the object is stopped: every thread keeps making progress
-    ao_corr.explore_handler_armed(run, 60 if run.tier == "quick" else 1500, focus="C04")
+    run.fork("handler-armed")
+    ao_corr.explore_handler_armed(run, 160 if run.tier == "quick" else 2500, focus="C04")
     if run.tier == "thorough" and not run.violations:
         # systematic part: every schedule with at most two preemptions of four small scenarios + random/PCT runs of three-poster
         # scenarios, on the real threads, judged by the oracle (the same search the verdict logic uses when a tie breaks)
